@@ -8,7 +8,9 @@
 (*   - LZMA_STREAM_END is returned exactly when everything was delivered,     *)
 (*   - from every reachable state one call with all remaining input,          *)
 (*     LZMA_FINISH and enough space finishes the stream (tail is flushed),    *)
-(*   - decode(encode(x)) = x and encode(decode(x)) = x at the same offset.    *)
+(*   - decode(encode(x)) = x and encode(decode(x)) = x at the same offset,    *)
+(*   - a coder that is re-initialised at any moment behaves like a new one    *)
+(*     (MCReinit: all invariants keep holding for the next job).              *)
 EXTENDS SimpleCoder, BcjSamples, TLC
 
 CONSTANTS InSizes, OutSizes, SampleSeeds, MCArchs
@@ -37,7 +39,14 @@ MCCall(nin, space) ==
            r      == Call(arch, enc, s, SubSeq(data, ipos + 1, ipos + avail), space, finish)
        IN /\ s' = r.s /\ ipos' = ipos + r.used /\ out' = out \o r.out /\ ret' = r.ret
     /\ UNCHANGED <<arch, enc, off, data>>
-MCNext == \E nin \in InSizes, space \in OutSizes : MCCall(nin, space)
+\* the same coder object is initialised again (any time: mid-stream or after the end) for another job
+MCReinit == /\ \E o \in MCOffsets(arch), x \in MCData(arch) :
+                 /\ off' = o
+                 /\ data' = IF enc THEN x ELSE Stream(arch, TRUE, o, x)
+                 /\ s' = ScReinit(s, arch, o)
+            /\ ipos' = 0 /\ out' = <<>> /\ ret' = "OK"
+            /\ UNCHANGED <<arch, enc>>
+MCNext == (\E nin \in InSizes, space \in OutSizes : MCCall(nin, space)) \/ MCReinit
 MCSpec == MCInit /\ [][MCNext]_mvars
 
 Whole == Stream(arch, enc, off, data)
